@@ -739,7 +739,7 @@ def _one(rng, kind, big):
             reply = _chain(rng, W(min(total, rng.choice([0, 1, 50, 3000, 30000]))), [["lose"]])
             Y["rules"].append(["rlost", reply if rng.random() < 0.5 else [["later", rng.choice([5, 25]), reply]]])
     elif kind == "echo":
-        total = max(1, min(total, 60000 if not big else total))
+        total = max(1, min(total, 20000 if not big else total))
         X["rules"].append(["conn", _chain(rng, W(total), [])])
         X["rules"].append([["recv", total], [["lose"]]])
         Y["rules"].append(["data", [["echo"]]])
@@ -797,6 +797,30 @@ def _one(rng, kind, big):
         if hy:
             Y["rules"].append(["rlost", [["lose"]]])
         ex = {"X": ["D", "A"], "Y": ["D", "L"], "XY": "prefix", "YX": "exact", "unmade": "Y"}
+    elif kind == "halfclose-then-close":
+        # write, loseWriteConnection and loseConnection in every order while the data is still buffered (same
+        # turn, or loseConnection a few turns later): whatever was accepted must arrive before the clean EOF
+        total = max(total, 1)
+        a = W(total)
+        order = rng.choice(["w h l", "w l h", "h w l", "h l w", "l h w", "l w h", "w h w l", "w h l w"])
+        acts, later_lose = [], rng.random() < 0.35
+        half_w = len(a) // 2
+        nw = order.split().count("w")
+        seen_w = 0
+        for tok in order.split():
+            if tok == "w":
+                seen_w += 1
+                acts += a if nw == 1 else (a[:half_w] if seen_w == 1 else a[half_w:])
+            elif tok == "h":
+                acts.append(["losew"])
+            else:
+                acts.append(["later", rng.choice([0, 1, 3]), [["lose"]]] if later_lose and tok == order.split()[-1]
+                            else ["lose"])
+        X["rules"].append(["conn", acts])
+        if hx:
+            X["rules"].append(["rlost", [["lose"]]])
+        if hy:
+            Y["rules"].append(["rlost", [["lose"]]])
     elif kind == "dead-peer":
         # the peer goes away early while X is not reading; later X acts on the dead connection
         t0 = rng.choice([0, 5, 10])
@@ -826,7 +850,7 @@ def _one(rng, kind, big):
 
 
 KINDS = ["simple", "simple", "reply", "reply", "echo", "pause", "both", "write-after-lose", "abort", "abort",
-         "peer-abort", "early-close", "late-abort", "dead-peer"]
+         "peer-abort", "early-close", "late-abort", "dead-peer", "halfclose-then-close", "halfclose-then-close"]
 
 
 def _gen_cases(rng, per_reactor, nbig):
@@ -837,7 +861,7 @@ def _gen_cases(rng, per_reactor, nbig):
             c["reactor"] = rk
             cases.append(c)
         for i in range(nbig):
-            c = _one(rng, rng.choice(["simple", "reply", "echo", "pause", "abort", "both"]), True)
+            c = _one(rng, rng.choice(["simple", "reply", "echo", "pause", "abort", "both", "halfclose-then-close"]), True)
             c["reactor"] = rk
             cases.append(c)
     return cases
@@ -911,6 +935,17 @@ def corpus():
          "A": {"half": False, "rules": [["lost", [["losew"]]]]},
          "B": {"half": True, "rules": [["conn", [["w", 100], ["lose"]]], ["lost", [["losew"], ["w", 1]]]]},
          "expect": E},
+    ]
+    base += [
+        # write -> loseWriteConnection -> loseConnection in one turn, data still buffered: the half-close is only
+        # REQUESTED, so loseConnection must wait for the flush (not close at once and drop the buffer)
+        {"kind": "corpus-halfclose-then-close", "sndbuf": 2304, "rcvbuf": 2304, "sl": 1000, "bs": 512,
+         "A": {"half": False, "rules": [["conn", [["w", 5000], ["ws", [100, 0, 7]], ["losew"], ["lose"]]]]},
+         "B": {"half": True, "rules": [["rlost", [["lose"]]]]}, "expect": E},
+        {"kind": "corpus-halfclose-then-close-later", "sndbuf": 0, "rcvbuf": 0, "sl": 0, "bs": 0,
+         "A": {"half": False, "rules": []},
+         "B": {"half": True, "rules": [["conn", [["losew"], ["w", 300000], ["later", 1, [["lose"]]]]],
+                                       ["rlost", [["lose"]]]]}, "expect": E},
     ]
     out = []
     for rk in REACTORS:
